@@ -7,4 +7,6 @@ MCOrder1 == <<"p0">>
 MCPaths2 == {"p0", "p1"}
 MCOrder2 == <<"p0", "p1">>
 MCNoClients == {}
+CONSTANTS c1, c2, c3
+MCSym == Permutations({c1, c2})
 =============================================================================
